@@ -13,7 +13,9 @@ sub-spaces, each enumerated completely within the stated bounds:
  (d) capabilities union over modules for all capability subsets, repeated / interleaved calls
  (e) histories   small diagrams x every wire SEQUENCE (repetition + order) x two executions on the
                  same objects with a mutation in between (re-registration, fresh executor, one more
-                 connect) x both option values x both forms of "no external input"
+                 connect) x both option values x both forms of "no external input"; plus an EXISTING executor
+                 whose diagram is connected further after its construction (before its first and before its
+                 second execution), judged against both defensible diagram versions (now / at construction)
 
 Every execution of (b), (c), (e) is crossed with enforce_static_checks in {True, False}: the option has
 no documented effect, its name speaks of the static (type/integrity per wire) checks only, and nothing
@@ -294,13 +296,29 @@ def execute_case(p, handlers, ext, enforce, st):
     return judge(p, make_executor(p, handlers, log), log, handlers, ext, enforce, st)
 
 
-def judge(p, ex, log, handlers, ext, enforce, st, form="dict"):
+class View:
+    """A diagram version (as seen by the public call history) an execution may be judged against."""
+    __slots__ = ("accepted", "wires_in", "acyclic")
+
+
+def snapshot(p):
+    s = View()
+    s.accepted = list(p.accepted)
+    s.wires_in = {k: list(x) for k, x in p.wires_in.items()}
+    s.acyclic = p.acyclic
+    return s
+
+
+def judge(p, ex, log, handlers, ext, enforce, st, form="dict", views=None):
     """Run one execute() of the prepared diagram on the given executor and judge it. handlers: {module: kind}
     (absent = no handler); ext: {module: {port: kind}}; form: how 'no external value' is spelled ("dict": modules
     without external values are left out; "alt": None when there is none at all, else every other module is
     listed with an empty dict). The verdict is derived from the public call history only (accepted connects,
-    registered handlers, supplied values) and never from `enforce`. Returns (viols, outcome)."""
-    v = []
+    registered handlers, supplied values) and never from `enforce`.
+    views: the diagram versions (wire sets) the behaviour may defensibly correspond to; default = the diagram as it
+    is now. The ONE observed execution is judged against each; it violates only if it is wrong for every one of
+    them (then the violations w.r.t. the first = current version are returned).
+    Returns (viols, outcome); outcome[4] = indices of the views the execution is consistent with."""
     names = p.names
     del log[:]
     ext_in = {}
@@ -325,34 +343,7 @@ def judge(p, ex, log, handlers, ext, enforce, st, form="dict"):
         else:
             for m in names:
                 ext_in.setdefault(m, {})
-    # ---- reference verdict --------------------------------------------------------------------
-    reason = None
-    if ext_unknown:
-        reason = "unknown-external-port"
-    elif not ext_ok:
-        reason = "external-label"
-    else:
-        for m in names:
-            if p.outs[m] and m not in handlers:
-                reason = "missing-handler"
-                break
-        if reason is None:
-            for m in names:
-                for q in p.ins[m]:
-                    nw = len(p.wires_in.get((m, q), ()))
-                    ne = 1 if q in ext.get(m, ()) else 0
-                    if nw > 1:
-                        reason = reason or "duplicate-source"
-                    elif nw + ne == 0:
-                        reason = reason or "missing-source"
-                    elif nw + ne > 1:
-                        reason = reason or "wired-and-external"
-        if reason is None and not p.acyclic:
-            reason = "cycle"
     hstat = {m: _handler_status(p.outs[m], k) for m, k in handlers.items()}
-    if reason is None and "contradicts" in hstat.values():
-        reason = "handler-output"
-    lenient = reason is None and "either" in hstat.values()
     # ---- run ------------------------------------------------------------------------------------
     md = p.moddict
     md.sweeps = 0
@@ -378,6 +369,67 @@ def judge(p, ex, log, handlers, ext, enforce, st, form="dict"):
     st["handler_calls"] += len(log)
     if log:
         st["nontrivial"] += 1
+    msg = ""
+    if err is not None:
+        msg = " ".join(str(err).split()[:2])
+    # ---- oracle, per candidate diagram version ---------------------------------------------------------
+    if views is None:
+        views = (p,)
+    results = [_oracle(p, w, handlers, hstat, ext, ext_unknown, ext_ok, ext_payload, enforce, got, rep, err, log)
+               for w in views]
+    v0, tag0, early0 = results[0]
+    if len(p.diagram.wires) != len(p.accepted):  # about the real diagram object, whatever the reading
+        v0.append(("sched:execute-changed-wires", f"wires after execute: {p.diagram.wires}"))
+        ok = ()
+    else:
+        ok = tuple(i for i, r in enumerate(results) if not r[0])
+    if not ok:
+        if len(views) > 1:
+            v0 = [(k, w + f" [also inconsistent with the {len(views) - 1} other defensible diagram version(s): "
+                   + "; ".join(f"wires {views[i].accepted} -> {results[i][0][0][0] if results[i][0] else 'consistent'}"
+                               for i in range(1, len(views))) + "]")
+                  for k, w in v0]
+        return v0, (tag0, got, msg, len(log), ok)
+    _v, tag, early = results[ok[0]]
+    if early:
+        st["note_ran_before_feeder_in_failed_run"] += 1
+    return [], (tag, got, msg, len(log), ok)
+
+
+def _oracle(p, view, handlers, hstat, ext, ext_unknown, ext_ok, ext_payload, enforce, got, rep, err, log):
+    """Judge one observed execution against the diagram version `view` (accepted wires, sources per port,
+    acyclicity). -> (violations, expected-outcome tag, a handler ran before its feeder in a failed run)"""
+    v = []
+    names = p.names
+    accepted = view.accepted
+    wires_in = view.wires_in
+    # ---- reference verdict --------------------------------------------------------------------
+    reason = None
+    if ext_unknown:
+        reason = "unknown-external-port"
+    elif not ext_ok:
+        reason = "external-label"
+    else:
+        for m in names:
+            if p.outs[m] and m not in handlers:
+                reason = "missing-handler"
+                break
+        if reason is None:
+            for m in names:
+                for q in p.ins[m]:
+                    nw = len(wires_in.get((m, q), ()))
+                    ne = 1 if q in ext.get(m, ()) else 0
+                    if nw > 1:
+                        reason = reason or "duplicate-source"
+                    elif nw + ne == 0:
+                        reason = reason or "missing-source"
+                    elif nw + ne > 1:
+                        reason = reason or "wired-and-external"
+        if reason is None and not view.acyclic:
+            reason = "cycle"
+    if reason is None and "contradicts" in hstat.values():
+        reason = "handler-output"
+    lenient = reason is None and "either" in hstat.values()
     # ---- oracle -----------------------------------------------------------------------------------
     if got == "nontermination":
         v.append((f"sched:nontermination:{reason}", f"execute() exceeded {2 * len(names) + 4} sweeps / watchdog "
@@ -391,8 +443,6 @@ def judge(p, ex, log, handlers, ext, enforce, st, form="dict"):
     elif got == "error" and reason is None and not lenient:
         v.append(("sched:rejected-schedulable", f"execute(enforce_static_checks={enforce}) raised WiringError({err}) for a "
                   "schedulable diagram with consistent handlers"))
-    if len(p.diagram.wires) != len(p.accepted):
-        v.append(("sched:execute-changed-wires", f"wires after execute: {p.diagram.wires}"))
     # every handler invocation, whatever the final outcome
     count = {}
     for m, inputs, _gen in log:
@@ -413,7 +463,7 @@ def judge(p, ex, log, handlers, ext, enforce, st, form="dict"):
                 v.append(("flow:type", f"{m}.{q} declared {t} received a {val.data_type.name} value"))
             if RANK[val.integrity.name] < RANK[l]:
                 v.append(("flow:integrity", f"{m}.{q} requires {l} received a {val.integrity.name} value"))
-            allowed = [_src_payload(p, handlers, s, sp) for s, sp in p.wires_in.get((m, q), ())]
+            allowed = [_src_payload(p, handlers, s, sp) for s, sp in wires_in.get((m, q), ())]
             if (m, q) in ext_payload:
                 allowed.append(ext_payload[(m, q)])
             if not any(_same(val.value, a) for a in allowed):
@@ -423,14 +473,14 @@ def judge(p, ex, log, handlers, ext, enforce, st, form="dict"):
             v.append(("sched:handler-called-twice", f"handler(s) of {m} invoked {c} times in one execution"))
     called = [e[0] for e in log]
     pos = {m: i for i, m in enumerate(called)}
-    early = [(w[0], w[2]) for w in p.accepted if w[2] in pos and (w[0] not in pos or pos[w[0]] > pos[w[2]]) and w[0] in handlers]
+    early = [(w[0], w[2]) for w in accepted if w[2] in pos and (w[0] not in pos or pos[w[0]] > pos[w[2]]) and w[0] in handlers]
     if got == "report":
         order = list(rep.execution_order)
         if sorted(order) != sorted(names):
             v.append(("sched:not-run-exactly-once", f"execution_order {order} for modules {names}"))
         else:
             op = {m: i for i, m in enumerate(order)}
-            for w in p.accepted:
+            for w in accepted:
                 if op[w[0]] >= op[w[2]]:
                     v.append(("sched:ran-before-feeder", f"{w[2]} ran before its feeder {w[0]} (order {order})"))
                     break
@@ -440,7 +490,7 @@ def judge(p, ex, log, handlers, ext, enforce, st, form="dict"):
             if count.get(m, 0) != 1:
                 v.append(("sched:not-run-exactly-once", f"handler of {m} invoked {count.get(m, 0)} times in a completed run"))
         if early and not any(k == "sched:ran-before-feeder" for k, _ in v):
-            v.append(("sched:ran-before-feeder", f"handlers ran as {called}; wires {p.accepted}"))
+            v.append(("sched:ran-before-feeder", f"handlers ran as {called}; wires {accepted}"))
         if set(rep.modules) != set(names):
             v.append(("sched:report-incomplete", f"report.modules has {sorted(rep.modules)}"))
         for m, me in rep.modules.items():
@@ -452,13 +502,7 @@ def judge(p, ex, log, handlers, ext, enforce, st, form="dict"):
                 t, l = p.outs.get(m, {}).get(q, (None, None))
                 if t is None or not isinstance(val, TypedValue) or val.data_type.name != t or val.integrity.name != l:
                     v.append(("flow:output-contradicts-declaration", f"recorded output {m}.{q}={val!r} declared {(t, l)}"))
-    elif early:
-        st["note_ran_before_feeder_in_failed_run"] += 1
-    msg = ""
-    if err is not None:
-        msg = " ".join(str(err).split()[:2])
-    outcome = (reason or ("lenient" if lenient else "ok"), got, msg, len(log))
-    return v, outcome
+    return v, reason or ("lenient" if lenient else "ok"), bool(early) and got != "report"
 
 
 def run_exec_case(case, st):
@@ -859,6 +903,7 @@ def run_seq(case, st, p=None):
     """Two judged executions on the same diagram with a mutation in between:
        between = none      same executor again
                  rereg     every handler re-registered under its name (new closure, same behaviour)
+                 reglate   every module that had no handler gets one now (same executor)
                  fresh     a second executor on the same diagram (the first one stays alive)
                  connect   one more attempted connect on the diagram, then a second executor
     Each execution is judged by the absolute oracle of judge(); keys of the second one are prefixed 'seq:'."""
@@ -878,6 +923,10 @@ def run_seq(case, st, p=None):
     between = tuple(case["between"])
     if between[0] == "rereg":
         register(p, ex, handlers, log, 1)
+    elif between[0] == "reglate":
+        late = {m: "raw" for m in p.names if m not in handlers}
+        register(p, ex, late, log, 1)
+        handlers.update(late)
     elif between[0] == "fresh":
         ex = make_executor(p, handlers, log, 1)
     elif between[0] == "connect":
@@ -890,6 +939,45 @@ def run_seq(case, st, p=None):
     ext2, enf2, form = case["second"]
     v, o2 = judge(p, ex, log, handlers, {m: dict(q) for m, q in ext2.items()}, bool(enf2), st, form)
     return [("seq:" + k, w) for k, w in v], o1[:2] + o2[:3]
+
+
+def run_late(case, st):
+    """An EXISTING executor and later changes of its diagram:
+         build the diagram (wire sequence), construct the executor + register handlers, [connect w1], execute,
+         connect w2, execute again on the SAME executor.
+    The statement does not say whether an existing executor follows later connects, so each execution is judged
+    against both defensible diagram versions -- the diagram as it is at that execute() (live reading) and as it was
+    when the executor was constructed (snapshot reading) -- and violates only if it is wrong for both (e.g. it
+    behaves like the diagram of some intermediate moment). Keys are prefixed 'late:'."""
+    p = prepare(case["mods"], case["wires"])
+    if p.viols:
+        st["connects"] += p.n_connect
+        st["diagrams"] += 1
+        return list(p.viols), ("prep-violation",)
+    handlers = dict(case["handlers"])
+    log = []
+    ex = make_executor(p, handlers, log, 0)
+    snap = snapshot(p)
+    out = ()
+    steps = ((case["w1"], tuple(case["first"]) + ("dict",), "late:first:"), (case["w2"], tuple(case["second"]), "late:"))
+    for w, (ext, enf, form), prefix in steps:
+        if w is not None:
+            extend(p, (tuple(w),))
+            if p.viols:
+                break
+        v, o = judge(p, ex, log, handlers, {m: dict(q) for m, q in ext.items()}, bool(enf), st, form, views=(p, snap))
+        if o[4] == (1,):
+            st["late_snapshot_only"] += 1
+        if v:
+            st["connects"] += p.n_connect
+            st["diagrams"] += 1
+            return [(prefix + k, t) for k, t in v], out + ("violation",) + o[:3]
+        out += o[:2] + (o[4],)
+    st["connects"] += p.n_connect
+    st["diagrams"] += 1
+    if p.viols:
+        return [("late:" + k, t) for k, t in p.viols], ("prep-violation",)
+    return [], out
 
 
 def e_work(arg):
@@ -915,7 +1003,7 @@ def e_work(arg):
                 exts.append(ext)
             firsts = [(ext, enf) for ext in exts for enf in (True, False)]
             seconds = [(ext, enf, form) for ext in exts for enf in (True, False) for form in ("dict", "alt")]
-            betweens = [("none",), ("rereg",), ("fresh",)] + [("connect", w) for w in pairs]
+            betweens = [("none",), ("rereg",), ("reglate",), ("fresh",)] + [("connect", w) for w in pairs]
             for r in range(wlen + 1):
                 for wires in itertools.product(pairs, repeat=r):
                     shared = prepare(mods, wires)
@@ -923,6 +1011,8 @@ def e_work(arg):
                     st["diagrams"] += 1
                     for between in betweens:
                         for hs in _subsets(names):
+                            if between[0] == "reglate" and len(hs) == len(names):
+                                continue  # nothing left to register: identical to "none"
                             handlers = {m: "raw" for m in hs}
                             for first in firsts:
                                 for second in seconds:
@@ -943,6 +1033,31 @@ def e_work(arg):
                                             viols.append((k, None, None))
                                     if not v and not samples and between[0] == "connect" and out[1] == "report" and out[3] == "error":
                                         samples.append(case)
+            # existing executor + late connects (see run_late): initial sequences one shorter, so that the total
+            # number of attempted wires stays within wlen + 1
+            for r in range(wlen):
+                for wires in itertools.product(pairs, repeat=r):
+                    for w1 in [None] + pairs:
+                        for w2 in pairs:
+                            for hs in _subsets(names):
+                                handlers = {m: "raw" for m in hs}
+                                for first in firsts:
+                                    for second in seconds:
+                                        case = {"space": "late", "mods": mods, "wires": wires, "handlers": handlers,
+                                                "w1": w1, "first": first, "w2": w2, "second": second}
+                                        v, out = run_late(case, st)
+                                        st["late_sequences"] += 1
+                                        outcomes.add(("late",) + out)
+                                        for k, w in v:
+                                            st["violating"] += 1
+                                            if k not in seen_keys:
+                                                seen_keys.add(k)
+                                                viols.append((k, w, case))
+                                            else:
+                                                viols.append((k, None, None))
+                                        if not v and len(samples) < 2 and w1 is not None and out[:2] == ("ok", "report") \
+                                                and out[3:5] == ("duplicate-source", "error"):
+                                            samples.append(case)
     finally:
         _watchdog(False)
     return dict(st), viols, outcomes, samples
@@ -1024,6 +1139,9 @@ def run(ctx):
         ctx.note(f"stronger reading not asserted: in {early} executions that END IN WiringError a handler ran before a module "
                  "feeding it (input port both wired and externally supplied, consumer inserted first); the statement's ordering "
                  "clause is asserted for completed runs only")
+    if st["late_snapshot_only"]:
+        ctx.note(f"existing executor: {st['late_snapshot_only']} executions after a late connect match only the diagram as it was "
+                 "at construction (snapshot reading), not the current one")
     ctx.note("a module without outputs and without a handler is executed as a no-op and reported (not treated as 'missing handler')")
     evaluations = st["connects"] + st["executions"] + st["caps_cases"] + 441
     ctx.coverage.update(
@@ -1041,7 +1159,11 @@ def run(ctx):
         "call x set/frozenset, every call repeated after the caller emptied / polluted the previous result; (e) small diagrams x "
         "every wire SEQUENCE up to the stated length (repetition = duplicate wire, both orders) x handler subsets x two executions "
         "(external subset x enforce each; second also x spelling of 'no external value': omitted / None / empty dict) with "
-        "between them: nothing | re-register all handlers | second executor | one more connect (any pair) + second executor. "
+        "between them: nothing | re-register all handlers | register the handlers that were missing | second executor | one more connect (any pair) + second executor; "
+        "(e-late) every wire sequence one shorter x executor constructed + handlers registered x [no | any] connect w1 x execute x "
+        "any connect w2 (duplicate source, cycle-closing, new feeder, ...) x execute on the SAME executor (same crossing of "
+        "handler subsets, external subsets, enforce, spelling), each execution judged against the diagram as it is at that "
+        "execute() and as it was at construction, violating only if wrong for both. "
         "states = diagrams built, transitions = connect() calls + handler invocations, every case is distinct by construction; "
         "non-trivial = an execution in which at least one handler actually ran (got past pre-flight)",
         exhaustive=True,
@@ -1050,7 +1172,7 @@ def run(ctx):
                 "e_(modules,total_in,total_out,wire_seq_len)": list(ebounds), "e_port_configs": len(ecfgs),
                 "options": "enforce_static_checks in {True, False} for every execution of (b), (c), (e)"},
         executions_b=stb["executions"], executions_c=stc["executions"], executions_e=ste["executions"],
-        sequences_e=ste["sequences"],
+        sequences_e=ste["sequences"], late_sequences_e=ste["late_sequences"],
     )
     ctx.assumptions += [
         "type/label checks read only declarations and value labels, scheduling reads only port names: (b) uses one uniform port "
@@ -1059,8 +1181,13 @@ def run(ctx):
         "handlers are pure closures that never raise; a handler raising is outside the statement",
         "enforce_static_checks has no docstring; it is read as 'repeat the per-wire type/integrity check at delivery', which is "
         "redundant on diagrams built through connect() with outputs coerced to their declared label: no asserted clause depends on it",
-        "after the diagram is mutated (one more connect) only a NEWLY constructed executor is judged: whether an existing executor "
-        "must follow later changes of its diagram is not something the statement decides",
+        "whether an EXISTING executor must follow later connects on its diagram is not something the statement decides: a newly "
+        "constructed executor is judged against the current diagram; an existing one must behave, in each execution, as a correct "
+        "executor would on the diagram as it is now (live) OR as it was when the executor was constructed (snapshot) -- behaviour "
+        "matching neither (e.g. the diagram as of the first execute()) is a violation; the two executions are not required to "
+        "follow the same reading",
+        "modules added to the diagram after the executor was constructed are not explored (register_module() for such a module "
+        "has no defined meaning under the snapshot reading)",
         "re-registration: the statement does not say which handler generation runs; asserted is only that the module's handler(s) "
         "run exactly once per completed execution, with complete, correctly labelled inputs",
     ]
@@ -1081,6 +1208,12 @@ def replay(ctx, case):
         _watchdog(True)
         try:
             return run_seq(case, st)[0]
+        finally:
+            _watchdog(False)
+    if sp == "late":
+        _watchdog(True)
+        try:
+            return run_late(case, st)[0]
         finally:
             _watchdog(False)
     if sp == "exec":
